@@ -379,3 +379,89 @@ def gen_config_writes():
                 f'writtenElsewhere := {ls(c)}, callResetsFirst := {"true" if d else "false"} }}\n\n')
     out += 'end PhotVerif.Gen.ConfigWrites\n'
     return 'ConfigWrites.lean', allsrc, out
+
+
+# ------------------------------------------------------------------ catalogue slicing (__getitem__)
+INPLACE_METHODS = {'append', 'extend', 'insert', 'remove', 'pop', 'clear', 'update', 'sort', 'reverse', 'setdefault',
+                   'popitem', 'add', 'discard'}
+
+
+def _inplace_mutated_attrs(cnode):
+    """attributes X for which some method does self.X.append(..) / self.X[...] = .. / self.X += .. / del self.X[..]"""
+    out = set()
+    init = next((m for m in cnode.body if isinstance(m, ast.FunctionDef) and m.name == '__init__'), None)
+    ctor_only = {'__init__'}
+    if init is not None:      # helpers called by the constructor run before any slice exists
+        ctor_only |= {c.func.attr for c in ast.walk(init) if isinstance(c, ast.Call) and isinstance(c.func, ast.Attribute)
+                      and isinstance(c.func.value, ast.Name) and c.func.value.id == 'self' and c.func.attr.startswith('_')}
+    for m in cnode.body:
+        if not isinstance(m, ast.FunctionDef) or m.name in ctor_only:
+            continue
+        for x in ast.walk(m):
+            if isinstance(x, ast.Call) and isinstance(x.func, ast.Attribute) and x.func.attr in INPLACE_METHODS:
+                b = x.func.value
+                if isinstance(b, ast.Attribute) and isinstance(b.value, ast.Name) and b.value.id == 'self':
+                    out.add(b.attr)
+            tg = []
+            if isinstance(x, ast.Assign):
+                tg = x.targets
+            elif isinstance(x, ast.AugAssign):
+                tg = [x.target]
+                if isinstance(x.target, ast.Attribute) and isinstance(x.target.value, ast.Name) \
+                        and x.target.value.id == 'self':
+                    pass   # rebinding for immutables, in place for lists: treated below only for subscripts
+            elif isinstance(x, ast.Delete):
+                tg = x.targets
+            for t in tg:
+                if isinstance(t, ast.Subscript):
+                    b = t.value
+                    if isinstance(b, ast.Attribute) and isinstance(b.value, ast.Name) and b.value.id == 'self':
+                        out.add(b.attr)
+    return out
+
+
+def gen_catslice_table():
+    specs = [('photutils/segmentation/catalog.py', 'SourceCatalog'), ('photutils/aperture/stats.py', 'ApertureStats')]
+    allsrc = ''
+    rows = []
+    for rel, cls in specs:
+        src = open(os.path.join(REPO, rel)).read()
+        allsrc += src
+        tree = ast.parse(src)
+        cnode = next(n for n in tree.body if isinstance(n, ast.ClassDef) and n.name == cls)
+        gi = next(m for m in cnode.body if isinstance(m, ast.FunctionDef) and m.name == '__getitem__')
+        init_attr = None
+        for x in ast.walk(gi):
+            if isinstance(x, ast.Assign) and isinstance(x.targets[0], ast.Name) and x.targets[0].id == 'init_attr':
+                init_attr = [e.value for e in x.value.elts]
+        if init_attr is None:
+            raise Unsupported(f'{cls}.__getitem__: init_attr tuple not found')
+        # attributes given a fresh copy in __getitem__: newcls.X = <expr>.copy() / list(..) / dict(..)
+        copied = set()
+        for x in ast.walk(gi):
+            if isinstance(x, ast.Assign) and isinstance(x.targets[0], ast.Attribute) \
+                    and isinstance(x.targets[0].value, ast.Name) and x.targets[0].value.id == 'newcls':
+                v = x.value
+                if (isinstance(v, ast.Call) and isinstance(v.func, ast.Attribute) and v.func.attr in ('copy', 'deepcopy')) \
+                        or (isinstance(v, ast.Call) and isinstance(v.func, ast.Name) and v.func.id in ('list', 'dict', 'deepcopy', 'copy')):
+                    copied.add(x.targets[0].attr)
+        mutated = _inplace_mutated_attrs(cnode)
+        shared_mutated = sorted((set(init_attr) & mutated) - copied)
+        # slicing rule: does the loop skip np.isscalar values, keep private values as length-1 iterables
+        srcgi = ast.unparse(gi)
+        skips_scalar = 'np.isscalar(value)' in srcgi
+        private_len1 = "key.startswith('_')" in srcgi
+        rows.append((cls, init_attr, sorted(copied), sorted(mutated & set(init_attr)), shared_mutated, skips_scalar, private_len1))
+    out = ('/- GENERATED by tools/extract_tables.py (catalogue __getitem__ tables) '
+           f'(sha256/16 {sha(allsrc)}). DO NOT EDIT. -/\n'
+           'import PhotVerif.Model.Prelude\nnamespace PhotVerif.Gen.CatSliceTable\n\n'
+           'structure Row where\n  name : String\n  initAttr : List String\n  copied : List String\n'
+           '  mutatedInPlace : List String\n  sharedMutated : List String\n  skipsScalars : Bool\n  privateLen1 : Bool\n'
+           'deriving DecidableEq, Repr\n\n')
+    for cls, a, b, c, d, e, f in rows:
+        ls = lambda l: '[' + ', '.join(lean_str(x) for x in l) + ']'
+        bb = lambda v: 'true' if v else 'false'
+        out += (f'def row{cls} : Row := {{ name := {lean_str(cls)}, initAttr := {ls(a)}, copied := {ls(b)}, '
+                f'mutatedInPlace := {ls(c)}, sharedMutated := {ls(d)}, skipsScalars := {bb(e)}, privateLen1 := {bb(f)} }}\n\n')
+    out += 'end PhotVerif.Gen.CatSliceTable\n'
+    return 'CatSliceTable.lean', allsrc, out
